@@ -7,6 +7,9 @@ Driver for C07.  One case =
 expr    := (and e e) | (or e e) | (cmp op L R) | (in L (vals n|N …)) | (attr (ch v a…)) | (not e) | (exists v e)
          | (forall v e) | (pred name) | (barevar v) | (barelit T|F)
 operand := (ch v a…) | (lit n|N) | (other index|call|flatten|selfvar|objlit|nested [chain])
+         | (var v s|N) a bare variable (s = index of the first element of its domain) | (obj i) an object literal: only as
+           `(cmp eq|ne (var v s) (obj i))` (either order)
+`(sattr (ch v a…))`: a bare STRING attribute as a condition (ranks decoded by `(strtab …)`; the atom `""` is the empty string)
 `(sub C I [spelling])` with C, I := (ch v a…) | (slit rank): the substring test `I in C` on strings; `(strtab s1 s2 …)` (an item
 of the case) decodes the ranks that string columns and string literals carry (rank k = k-th entry, code-point sorted).
 `(in L (vals …) [in|contains])`: the optional last atom is the python spelling, irrelevant to the model.
@@ -43,6 +46,8 @@ def parseChain : Sexp → Option Chain
 
 def parseOperand : Sexp → Option Operand
   | .list [.atom "lit", v] => (parseOptInt v).map .lit
+  | .list [.atom "var", v, smp] => do pure (.var (← v.asNat?) (← parseOptNat smp))
+  | .list [.atom "obj", i] => i.asNat?.map .obj
   | .list (.atom "other" :: .atom k :: _) =>
     match k with
     | "index" => some (.other .index) | "call" => some (.other .call) | "flatten" => some (.other .flatten)
@@ -61,6 +66,7 @@ partial def parseExpr (tab : StrTab) : Sexp → Option Expr
   | .list [.atom "cmp", .atom op, l, r] => do pure (.cmp (← parseCmp op) (← parseOperand l) (← parseOperand r))
   | .list (.atom "in" :: item :: .list (.atom "vals" :: vs) :: _) => do pure (.isIn (← parseOperand item) (← vs.mapM parseOptInt))
   | .list [.atom "attr", c] => (parseChain c).map .attr
+  | .list [.atom "sattr", c] => (parseChain c).map (.strAttr tab)
   | .list [.atom "not", e] => (parseExpr tab e).map .not
   | .list [.atom "exists", v, e] => do pure (.exist (← v.asNat?) (← parseExpr tab e))
   | .list [.atom "forall", v, e] => do pure (.all (← v.asNat?) (← parseExpr tab e))
@@ -142,7 +148,13 @@ def run (s : Sexp) : String :=
     | .error .escape => "model=escape\tspec=PROP rejected\ttrig="
     | .ok sq =>
       let sql := showSql c.q c.mult (execSql c.schema sq c.db)
-      -- no open finding is left for C07: a deviation between the two worlds is a violation
-      let trig : List String := []
-      s!"model=mem={mem} sql={sql}\tspec=PROP mem={mem} sql={mem}\ttrig={",".intercalate trig}"
+      -- the statement a repaired translator would produce (string truthiness as IS NOT NULL AND != '', variable ==
+      -- object by primary key): a repaired tree still corresponds
+      let sqlFixed := showSql c.q c.mult (execSql c.schema sq.repair c.db)
+      -- open findings: attributed only where the trigger holds AND the model predicts a deviation on this input
+      let cond := c.q.cond.getD (.bareLit true)
+      let trig : List String :=
+        (if hasStrAttr cond && sql != mem then ["F-C07-6"] else []) ++
+        (if hasVarObj cond && sql != mem then ["F-C07-7"] else [])
+      s!"model=mem={mem} sql={sql}\tmodel_fixed=mem={mem} sql={sqlFixed}\tspec=PROP mem={mem} sql={mem}\ttrig={",".intercalate trig}"
 end KrroodVerif.Drive.C07
